@@ -365,6 +365,9 @@ func layeredDirectives(n int) string {
 
 var c03AdversarialSDL = []string{
 	layeredDirectives(5),
+	// descriptions with quotes in them (three in a row can only be written escaped)
+	"\"\"\"\nsays \\\"\"\" and goes on\n\"\"\"\ntype Query {\n  \"\"\"a \\\"\"\" b \\\"\"\" c\"\"\"\n  f: Int\n}\n",
+	"\"plain \\\"quoted\\\" \\\"\\\"\\\" text\"\ntype Query {\n  f(\"arg \\\"\\\"\\\" desc\" a: Int): Int\n}\nenum E {\n  \"\"\"v \\\"\"\" \"\"\"\n  A\n}\n",
 	layeredDirectives(48),
 	"union U = []", "union U = [[]]", "union U = | ", "union U", "union U =", "union U = !", "union U @d = Query",
 	"type T { a: [] }", "type T { a: [!] }", "type T { a: ! }", "type T { a: [Int }", "type T { a: Int! ! }", "type T { a(b: []): Int }",
